@@ -87,13 +87,10 @@ TRetSdt    == IsEv("ret.sdt") /\ Skip /\ Keep /\ tpc[E.id] = "done"
 TCallGdt   == IsEv("call.gdt") /\ GBegin(E.id) /\ Keep
 TGdt       == /\ IsEv("gdt") /\ NotCancelled(E.id) /\ dtype = E.s /\ deps = E.a /\ GPollO(E.id, FALSE, dtype)
               /\ IF ret'.k = "none" THEN Keep ELSE Rec(E.id)
-\* the cancelled branch reads the type without the lock: it may see the value from before a
-\* SetDataType that was logged since this getter's previous event
+\* the cancelled branch reads the type under the pipe's mutex and logs it there: it sees exactly the current type
+\* (before fix a6796cf it read without the lock and this rule had to admit stale values)
 TGdtCancel == /\ IsEv("gdt.cancel") /\ cancelled
-              /\ \/ E.s = dtype
-                 \/ (E.s = "" /\ stale[E.id])
-                 \* ... or the value a SetDataType that is inside its lock region is storing
-                 \/ (dtype = "" /\ \E t \in Typers : tpc[t] = "set" /\ targ[t] = E.s)
+              /\ E.s = dtype
               /\ GPollO(E.id, TRUE, E.s) /\ Rec(E.id)
 TRetGdt    == IsEv("ret.gdt") /\ Skip /\ Keep /\ res[E.id].k = "gdt" /\ res[E.id].t = E.s
 \* the driver's watchdog fired: nobody made progress for 10 s (judged by the check, not here)
